@@ -97,3 +97,8 @@ Proof.
   intros Ha Hb. destruct (fcmp a b) eqn:E; [eauto|].
   apply fcmp_nan in E. unfold ok in *. destruct E; congruence.
 Qed.
+Lemma f_lt_trans_asym a b : ok a -> ok b -> flt a b = true -> flt b a = false.
+Proof.
+  intros Ha Hb H. destruct (flt b a) eqn:E; [|reflexivity].
+  rewrite <- (f_lt_irrefl a Ha). symmetry. eapply f_lt_trans; eauto.
+Qed.
